@@ -187,4 +187,37 @@ LEMMAS = [
         proof="h = p\nwhile h < q:\n    h += 1",
         loops={1: dict(invariant={"range": "p <= h <= q", "dead": "rwalkv(acc, sarr, s0, v0, h) < 0"}, variant="q - h")},
     ),
+    # ------------------------------------------------------------------ C18: the digit <-> live-arc map of one vertex is a bijection
+    dict(
+        name="digit_bijection",     # without a table: digit d selects the d-th live arc; reading that arc back gives d
+        params={"row": "arr", "d": "int"},
+        requires={"digit-in-range": "0 <= d and d < rdeg(row)"},
+        ensures={"arc-is-live": "0 <= rarc(row, None, d) and rarc(row, None, d) <= 3 and row[rarc(row, None, d)] >= 0",
+                 "digit-of-arc-of-digit": "rdigit(row, None, rarc(row, None, d)) == d"},
+        proof="pass",
+    ),
+    dict(
+        name="digit_bijection_table",   # with a permutation row: digit d selects the live arc whose table entry is d-th smallest
+        params={"row": "arr", "srow": "arr", "d": "int"},
+        requires={"digit-in-range": "0 <= d and d < rdeg(row)", "permutation-row": "is_perm_row(srow)"},
+        ensures={"arc-is-live": "0 <= rarc(row, srow, d) and rarc(row, srow, d) <= 3 and row[rarc(row, srow, d)] >= 0",
+                 "digit-of-arc-of-digit": "rdigit(row, srow, rarc(row, srow, d)) == d"},
+        proof="pass",
+    ),
+    dict(
+        name="arc_bijection",       # every live arc j is selected by exactly its own digit (the map is onto the live arcs)
+        params={"row": "arr", "j": "int"},
+        requires={"live-arc": "0 <= j and j <= 3 and row[j] >= 0"},
+        ensures={"digit-in-range": "0 <= rdigit(row, None, j) and rdigit(row, None, j) < rdeg(row)",
+                 "arc-of-digit-of-arc": "rarc(row, None, rdigit(row, None, j)) == j"},
+        proof="pass",
+    ),
+    dict(
+        name="arc_bijection_table",
+        params={"row": "arr", "srow": "arr", "j": "int"},
+        requires={"live-arc": "0 <= j and j <= 3 and row[j] >= 0", "permutation-row": "is_perm_row(srow)"},
+        ensures={"digit-in-range": "0 <= rdigit(row, srow, j) and rdigit(row, srow, j) < rdeg(row)",
+                 "arc-of-digit-of-arc": "rarc(row, srow, rdigit(row, srow, j)) == j"},
+        proof="pass",
+    ),
 ]
